@@ -14,6 +14,16 @@ CLAIMED["C06"] = {
     "design_ref": "DESIGN.md section 5 C06",
     "technique": "Coq proof (induction over update lists) on a Num-generic model + bit-exact Flocq/vm_compute correspondence",
 }
+CLAIMED["C03"] = {
+    "text": "Coq theorems over the exact instance of a statement-by-statement model of PlaybackStateManager, StartTime::update and the shell shared by StaticSound/StreamingSound::process: Stopped is absorbing under every command, update and process call (silent, frozen); silence and frozen position whenever a call ends Paused / WaitingToResume or the start time is pending; pause/stop/resume become Paused/Stopped/Playing exactly at the update at which the fade tween completes (C06 law), at exactly silence / unity, with the gain monotone in between; resume_at waits, resumes or is cancelled per clock state; the handle mirror always equals the manager state; a finite non-looping sound reaches Stopped after exactly n-start+1 rendered frames for EVERY chunking (closed form by induction), a looping one never. The binary64/binary32 Flocq instance is compared bit-for-bit with a real static sound (state, position, finished, every output sample) on generated command histories; life-cycle monitors and unload-at-next-callback run on the implementation. Partial: streaming sound shares the shell but is driven only in C09/C10; libm powf facts come from a cfg hook log.",
+    "design_ref": "DESIGN.md section 5 C03",
+    "technique": "Coq proof (invariants + induction over update/chunk lists) + bit-exact Flocq/vm_compute correspondence",
+}
+CLAIMED["C17"] = {
+    "text": "Coq theorems (Q instance; two binary64 facts via Flocq) about models of Lfo::update (rem_euclid phase), Waveform::value, the tweener modulator, Modulators::process (for_each with dummy swap, key order), Renderer::process_chunk order and Value::FromModulator/Mapping: waveform and LFO value ranges for any phase/frequency sign, phase = frac(phase0 + f t) for every partition, tweener law, once-per-chunk call log, same-chunk rule for mixer/clock readers, exact modulator->modulator chain-lag rule, mapping clamps, hold after removal. Bit-exact binary64 correspondence through a real AudioManager with probe effects/modulators on generated histories; monitors for every clause. Known finding F23 (reader updated before the modulator it reads lags one chunk).",
+    "design_ref": "DESIGN.md section 5 C17",
+    "technique": "Coq proof on a Num-generic model + bit-exact Flocq/vm_compute correspondence",
+}
 REASON_WIP = "check not built yet in this session (work in progress; planned per DESIGN.md section 5)"
 
 def main():
